@@ -170,7 +170,16 @@ class IntervalEval:
                 base = self.expr(e.left)
                 ex = self.expr(e.right)
                 if ex.lo != ex.hi:
-                    raise AnalysisError("interval analysis: non-constant exponent", where=self.where(e))
+                    # x ** e = exp(e ln x) is monotone in each argument separately on x > 0, so its extremes over a
+                    # box are at the corners: the hull of the two constant-exponent images
+                    if base.lo < 0 or ex.lo in (INF, -INF) or ex.hi in (INF, -INF):
+                        raise AnalysisError("interval analysis: non-constant exponent on a possibly negative base",
+                                            where=self.where(e))
+                    a, b = power(base, ex.lo, self.where(e)), power(base, ex.hi, self.where(e))
+                    r = a.hull(b)
+                    if ex.lo_open or ex.hi_open:
+                        return Iv(r.lo, r.hi, True, True)
+                    return r
                 return power(base, ex.lo, self.where(e))
             l, r = self.expr(e.left), self.expr(e.right)
             if isinstance(e.op, ast.Add):
